@@ -143,7 +143,7 @@ func cmdC16(r *RNG, n int, e *Emitter, args []string) {
 			for j, q := range od {
 				god[j] = [2]string{ratOfFloat(q.X), ratOfFloat(q.Y)}
 			}
-			e.Case(fmt.Sprintf("c16-%dD", i), sd.String(), map[string]any{"godD": god, "eps": eps / 8, "closed": closed, "n": len(pd)})
+			e.Case(fmt.Sprintf("c16-%dD", i), sd.String(), map[string]any{"godD": god, "eps": eps / 8, "closed": closed, "n": len(pd), "path8": pathJSON(p0)})
 		}
 	}
 }
